@@ -1,5 +1,7 @@
 import LitexModel.Event.Core
 import LitexModel.Event.Gpio
+import LitexModel.Event.Producers
+import LitexModel.Event.SocIrq
 import LitexModel.DriverLib
 /-
   Numeric port encoding of the event-manager models for the line protocol.
@@ -13,6 +15,19 @@ import LitexModel.DriverLib
   open gpio <bw> <little> <npads>          `_GPIOIRQ.add_irq` (LitexModel/Event/Gpio.lean)
     inputs : [in (synchronised pads), mode, edge, adr, we, dat_w]
     outputs: [irq, dat_r, clear, pending, status, trigger]
+  open gpiosync <bw> <little> <npads>      GPIOIn/GPIOTristate(with_irq): MultiReg + `_GPIOIRQ` (Producers.lean)
+    inputs : [raw pads (before the synchroniser), mode, edge, adr, we, dat_w]
+    outputs: [irq, dat_r, clear, pending, status, trigger, in (`_in.status`)]
+  open timer <bw> <little>                 Timer: counter + ev.zero (Producers.lean)
+    inputs : [en, load, reload, adr, we, dat_w]
+    outputs: [irq, dat_r, clear, pending, status, trigger]
+  open uart <bw> <little> <tx depth> <rx depth> <rx_fifo_rx_we>       UART: FIFO levels + ev.tx/ev.rx
+    inputs : [sink.valid, source.ready, rxtx.re, rxtx.we, adr, we, dat_w]
+    outputs: [irq, dat_r, clear, pending, status, trigger, sink.ready, source.valid, rx_fifo.source.ready,
+              tx_fifo.level, rx_fifo.level]
+  open soc <width> <loc…> | <bw> <little> <kind…> | …                 SoC interrupt vector (SocIrq.lean)
+    inputs : as `shared`;  outputs: [cpu.interrupt, then (irq, dat_r, clear, pending, status) of every manager]
+  call irqalloc <n_locs> <used…> / <request…>     request = number | a (allocate)  ->  "ok <loc…>" | "err"
 -/
 namespace Litex.Event
 open Litex Litex.Driver
@@ -77,6 +92,63 @@ def numGpio (n bw : Nat) (little : Bool) : NumMachine GpioSt where
     | _ => none
   key s := toString (repr s)
 
+def numGpioSync (n bw : Nat) (little : Bool) : NumMachine GpioSyncSt where
+  init := (gpioSync n bw little).init
+  step s ins :=
+    match ins with
+    | [p, m, e, a, w, d] =>
+      let i : GpioRawIn := { raw := unpackBits n p, mode := unpackBits n m, edge := unpackBits n e, adr := a,
+                             we := n2b w, datW := d }
+      let o := (gpioSync n bw little).out s i
+      some ((gpioSync n bw little).next s i, outNums o.1.1 ++ [packBits o.1.2, packBits o.2])
+    | _ => none
+  key s := toString (repr s)
+
+def numTimer (bw : Nat) (little : Bool) : NumMachine TimerSt where
+  init := (timer bw little).init
+  step s ins :=
+    match ins with
+    | [en, ld, rl, a, w, d] =>
+      let i : TimerIn := { en := n2b en, load := ld, reload := rl, adr := a, we := n2b w, datW := d }
+      some ((timer bw little).next s i, outNums ((timer bw little).out s i) ++ [packBits (timerEvIn s.value i).trig])
+    | _ => none
+  key s := toString (repr s)
+
+def numUart (dtx drx : Nat) (rxWe : Bool) (bw : Nat) (little : Bool) : NumMachine UartSt where
+  init := (uart dtx drx rxWe bw little).init
+  step s ins :=
+    match ins with
+    | [sv, sr, re, rwe, a, w, d] =>
+      let i : UartIn := { sinkValid := n2b sv, srcReady := n2b sr, rxtxRe := n2b re, rxtxWe := n2b rwe, adr := a,
+                          we := n2b w, datW := d }
+      let o := (uart dtx drx rxWe bw little).out s i
+      some ((uart dtx drx rxWe bw little).next s i,
+            outNums o.ev ++ [packBits o.trig, b2n o.sinkReady, b2n o.sourceValid, b2n o.rxPop,
+                             s.tx.lvl + b2n s.tx.rd, s.rx.lvl + b2n s.rx.rd])
+    | _ => none
+  key s := toString (repr s)
+
+def numSoc (width : Nat) (locs : List Nat) (cs : List Cfg) : NumMachine (List St) where
+  init := (socIrq width locs cs).init
+  step ss ins := (splitIns cs ins).map fun is =>
+    let o := (socIrq width locs cs).out ss is
+    ((socIrq width locs cs).next ss is, packBits o.1 :: (o.2.map outNums).flatten)
+  key s := toString (repr s)
+
+def parseReq : String → Option (Option Nat)
+  | "a" => some none
+  | s => s.toNat?.map some
+
+def call : List String → Option String
+  | "irqalloc" :: nl :: rest => do
+    let nl ← nl.toNat?
+    let used ← (rest.takeWhile (· != "/")).mapM String.toNat?
+    let reqs ← ((rest.dropWhile (· != "/")).drop 1).mapM parseReq
+    match irqAlloc nl used reqs with
+    | some locs => some (" ".intercalate ("ok" :: locs.map toString))
+    | none => some "err"
+  | _ => none
+
 /-- Split a word list on "|". -/
 def splitBar (ws : List String) : List (List String) :=
   let rec go (acc : List String) (out : List (List String)) : List String → List (List String)
@@ -93,6 +165,30 @@ def openMachine (args : List String) (hin hout : IO.FS.Stream) : Option (IO Bool
     let n ← n.toNat?
     if bw = 0 then none else some (serve (numGpio n bw (n2b little)) hin hout)
   | "shared" :: rest => ((splitBar rest).mapM parseCfg).map fun cs => serve (numShared cs) hin hout
+  | ["gpiosync", bw, little, n] => do
+    let bw ← bw.toNat?
+    let little ← little.toNat?
+    let n ← n.toNat?
+    if bw = 0 then none else some (serve (numGpioSync n bw (n2b little)) hin hout)
+  | ["timer", bw, little] => do
+    let bw ← bw.toNat?
+    let little ← little.toNat?
+    if bw = 0 then none else some (serve (numTimer bw (n2b little)) hin hout)
+  | ["uart", bw, little, dtx, drx, rxwe] => do
+    let bw ← bw.toNat?
+    let little ← little.toNat?
+    let dtx ← dtx.toNat?
+    let drx ← drx.toNat?
+    let rxwe ← rxwe.toNat?
+    if bw = 0 then none else some (serve (numUart dtx drx (n2b rxwe) bw (n2b little)) hin hout)
+  | "soc" :: width :: rest => do
+    let width ← width.toNat?
+    match splitBar rest with
+    | locs :: cfgs => do
+      let locs ← locs.mapM String.toNat?
+      let cs ← cfgs.mapM parseCfg
+      some (serve (numSoc width locs cs) hin hout)
+    | [] => none
   | _ => none
 
 end Litex.Event
